@@ -259,6 +259,13 @@ fn exec(line: &str) -> String {
                     q1.hash() == q2.hash()
                 ))
             }
+            "qhash" => {
+                // PaymentQuote::hash on a quote with arbitrary key / signature bytes
+                let pk = if ws[1] == "-" { vec![] } else { common::unhex(ws[1])? };
+                let sg = if ws[2] == "-" { vec![] } else { common::unhex(ws[2])? };
+                let (f, _) = F::parse(&ws[3..])?;
+                Some(common::hex(f.quote(pk, sg).hash().as_slice()))
+            }
             "proof" => {
                 let me = peer_tok(ws[1])?;
                 let n: usize = ws[2].parse().ok()?;
@@ -431,6 +438,28 @@ fn oracle(line: &str, res: &str, out: &mut Out, seen: &mut HashMap<String, F>) {
             }
         }
         "pair" => {}
+        "qhash" => {
+            // the quote hash is Keccak-256 over signing bytes ++ key ++ signature (tiny-keccak + own concatenation)
+            use tiny_keccak::{Hasher, Keccak};
+            if let Some((f, _)) = F::parse(&ws[3..]) {
+                let mut bytes = f.content.to_vec();
+                bytes.extend_from_slice(&f.secs.to_le_bytes());
+                bytes.extend_from_slice(&rmp_serde::to_vec(&f.metrics()).unwrap_or_default());
+                bytes.extend_from_slice(&f.rewards);
+                for t in [ws[1], ws[2]] {
+                    if t != "-" {
+                        bytes.extend_from_slice(&common::unhex(t).unwrap_or_default());
+                    }
+                }
+                let mut h = Keccak::v256();
+                let mut o = [0u8; 32];
+                h.update(&bytes);
+                h.finalize(&mut o);
+                if res != common::hex(&o) {
+                    out.oracle_fail("hash-covers-signed-fields-key-and-signature", line, &format!("hash {res}, Keccak-256 of the fields gives {}", common::hex(&o)));
+                }
+            }
+        }
         _ => {}
     }
 }
@@ -672,7 +701,15 @@ fn main() {
                     let offs: Vec<String> = (0..n).map(|_| gen_offset_exp(&mut rng).to_string()).collect();
                     v.push(format!("pexp {}", offs.join(" ")));
                 }
-                17..=18 => v.push(gen_hist(&mut rng)),
+                17 => v.push(gen_hist(&mut rng)),
+                18 => {
+                    // quote hash: key / signature bytes of the usual and of odd lengths (the hash input has no separators)
+                    let nk = *rng.pick(&[0usize, 1, 36, 36, 36, 37, 64]);
+                    let ns = *rng.pick(&[0usize, 1, 64, 64, 64, 63, 65, 100]);
+                    let (k, s2) = (rng.bytes(nk), rng.bytes(ns));
+                    let hx = |b: &[u8]| if b.is_empty() { "-".to_string() } else { common::hex(b) };
+                    v.push(format!("qhash {} {} {}", hx(&k), hx(&s2), gen_f(&mut rng).tokens()));
+                }
                 _ => {
                     // pair: same key/signature, two presentations
                     let i = rng.below(NKEYS);
